@@ -285,6 +285,10 @@ def menu(proc, seed, tier="quick", ops=None, include_unsafe=False):
             if thorough:
                 add("stage_mem", b, wstr, nm + "_acc", True)
         if hi - lo == 1:
+            # a new iterator that deliberately takes the name of the innermost enclosing one
+            encl = _enclosing_iters(root, site)
+            if encl:
+                add("add_loop", b, encl[-1], "2")
             for hx in (["2", "n"] if not thorough else ["1", "2", "n", "n - 1"]):
                 add("add_loop", b, "r", hx)
                 add("add_loop", b, "r", hx, True)
@@ -407,6 +411,9 @@ def menu(proc, seed, tier="quick", ops=None, include_unsafe=False):
             add("left_reassociate_expr", N(p))
         if e.type.is_real_scalar() and isinstance(e, (LoopIR.Read, LoopIR.BinOp)):
             add("bind_expr", [N(p)], "bnd")
+            if isinstance(e, LoopIR.BinOp) and args_num:
+                # colliding name: the new buffer is called like an argument buffer
+                add("bind_expr", [N(p)], str(args_num[0][1].name))
             groups.setdefault(str(e), []).append(p)
             if isinstance(e, LoopIR.Read) and not e.idx:
                 for cfgn in seed.configs:
